@@ -64,7 +64,7 @@ fn any_name(tag: &str, patch: bool, sub: bool) -> Vec<u8> {
     } else {
         n.push(b'd');
     }
-    n.extend_from_slice(&sym::any_bytes(tag, NAMEBYTES, 0, sym::bound(2, 3)));
+    n.extend_from_slice(&sym::any_bytes(tag, NAMEBYTES, 0, if patch { 1 } else { sym::bound(1, 2) }));
     n
 }
 
@@ -77,7 +77,7 @@ fn any_size(tag: &str) -> (u64, Vec<u8>) {
         2 => (10, b"10".to_vec()),
         _ => {
             let mut d = sym::any_bytes(tag, "hex:31-39", 1, 1);
-            d.extend_from_slice(&sym::any_bytes(tag, "hex:30-39", 0, 2));
+            d.extend_from_slice(&sym::any_bytes(tag, "hex:30-39", 0, 1));
             let mut n: u64 = 0;
             for x in d.iter() {
                 n = n * 10 + (*x - b'0') as u64;
@@ -123,19 +123,31 @@ fn canonical_text(rcs: &[u8], files: &[FileSpec]) -> Vec<u8> {
     t
 }
 
+/// In the quick tier the secondary dimensions are derived from the algorithm choice instead of
+/// being chosen independently (keeps the product of choices small); the thorough tier makes them
+/// independent.
+fn dim(tag: &str, n: usize, derived: usize) -> usize {
+    if sym::bound(0, 1) == 1 {
+        sym::choose(tag, n)
+    } else {
+        derived % n
+    }
+}
+
 fn gen_files() -> Vec<FileSpec> {
     let mut files: Vec<FileSpec> = Vec::new();
     let nd = 1 + sym::choose("ndist", sym::bound(1, 2));
+    let a0 = sym::choose("alg", 6);
     let mut i = 0;
     while i < nd {
         // the first distfile varies in every dimension, further ones only in their name
         let first = i == 0;
-        let mut name = any_name("dn", false, first && sym::choose("sub", 2) == 1);
+        let mut name = any_name("dn", false, first && dim("sub", 2, a0 / 3) == 1);
         name.push(b'0' + i as u8); // distinct names
-        let a0 = if first { sym::choose("alg", 6) } else { 3 };
-        let mut sums = vec![(a0, if first { sym::any_bytes("h", "hex:30-39,61-66", 1, 2) } else { b"00".to_vec() })];
-        if first && sym::choose("two-sums", 2) == 1 {
-            sums.push(((a0 + 1) % 6, b"ab".to_vec()));
+        let a = if first { a0 } else { 3 };
+        let mut sums = vec![(a, if first { sym::any_bytes("h", "hex:30-39,61-66", 1, 1) } else { b"00".to_vec() })];
+        if first && dim("two-sums", 2, a0) == 1 {
+            sums.push(((a + 1) % 6, b"ab".to_vec()));
         }
         let size = if first { any_size("size") } else { (10, b"10".to_vec()) };
         files.push(FileSpec { name, sums, size: Some(size), patch: false });
@@ -143,7 +155,7 @@ fn gen_files() -> Vec<FileSpec> {
     }
     if sym::choose("patch", 2) == 1 {
         let name = any_name("pn", true, false);
-        files.push(FileSpec { name, sums: vec![(sym::choose("palg", 2) * 5, b"0f".to_vec())], size: None, patch: true });
+        files.push(FileSpec { name, sums: vec![(dim("palg", 2, a0 / 2) * 5, b"0f".to_vec())], size: None, patch: true });
     }
     files
 }
@@ -151,7 +163,7 @@ fn gen_files() -> Vec<FileSpec> {
 /// canonical text -> parse -> write is byte-identical
 pub fn h_roundtrip_text() {
     let mut rcs = b"$NetBSD: ".to_vec();
-    rcs.extend_from_slice(&sym::any_bytes("rcs", "bytes-nonl", 0, sym::bound(2, 3)));
+    rcs.extend_from_slice(&sym::any_bytes("rcs", "bytes-nonl", 0, sym::bound(1, 2)));
     let files = gen_files();
     let text = canonical_text(&rcs, &files);
     let d = Distinfo::from_bytes(&text);
@@ -168,7 +180,7 @@ pub fn h_roundtrip_api() {
     let mut d = Distinfo::new();
     let rcs = OsString::from_vec({
         let mut r = b"$NetBSD: ".to_vec();
-        r.extend_from_slice(&sym::any_bytes("rcs", "bytes-nonl", 0, 2));
+        r.extend_from_slice(&sym::any_bytes("rcs", "bytes-nonl", 0, 1));
         r
     });
     d.set_rcsid(&rcs);
@@ -233,12 +245,8 @@ pub fn h_classify() {
 
 /// interleaved recognised and ignored lines
 pub fn h_lines() {
-    let names: [Vec<u8>; 3] = [any_name("n0", false, false), any_name("n1", true, false), {
-        let mut n = any_name("n2", false, true);
-        n.push(b'2');
-        n
-    }];
-    sym::assume(!spec::bytes_eq(&names[0], &names[2]));
+    // one name with arbitrary bytes, a fixed patch name and a fixed DIST_SUBDIR name
+    let names: [Vec<u8>; 3] = [any_name("n0", false, false), b"patch-ab".to_vec(), b"sub/d2".to_vec()];
     // expected, per name: checksums in line order and last size
     let mut order: Vec<usize> = Vec::new();
     let mut sums: Vec<Vec<(usize, Vec<u8>)>> = vec![Vec::new(), Vec::new(), Vec::new()];
@@ -328,7 +336,7 @@ pub fn h_lines() {
     let mut want_d: Vec<usize> = Vec::new();
     let mut want_p: Vec<usize> = Vec::new();
     for w in order.iter() {
-        if *w == 1 {
+        if spec_is_patch(&names[*w]) {
             want_p.push(*w);
         } else {
             want_d.push(*w);
